@@ -46,10 +46,11 @@ const (
 	opWarmDone  // end of the warm-up task: releases every task parked in AwaitWarm at once
 	opAwaitWarm // park until the warm-up task is through (no-op without one)
 	opInject    // another writer puts an undecodable entry into the backend of an adapter queue
+	opBatchDrain // Drain() on a batch handle of an error / result worker (fire and forget)
 	nOps
 )
 
-var opNames = [nOps]string{"Add", "AddAll", "CloseJob", "Purge", "CloseQueue", "Wait", "Result", "Drain", "Status", "BatchWait", "BatchRead", "BatchPending", "Pause", "PauseAndWait", "Resume", "Stop", "WaitAndStop", "Restart", "TunePool", "WaitUntilFinished", "Bind", "CancelCtx", "OpenGate", "Settle", "Advance", "Sample", "QueuePending", "Yield", "Crash", "SpawnConsumer", "AddBare", "Introspect", "WarmDone", "AwaitWarm", "InjectBadEntry"}
+var opNames = [nOps]string{"Add", "AddAll", "CloseJob", "Purge", "CloseQueue", "Wait", "Result", "Drain", "Status", "BatchWait", "BatchRead", "BatchPending", "Pause", "PauseAndWait", "Resume", "Stop", "WaitAndStop", "Restart", "TunePool", "WaitUntilFinished", "Bind", "CancelCtx", "OpenGate", "Settle", "Advance", "Sample", "QueuePending", "Yield", "Crash", "SpawnConsumer", "AddBare", "Introspect", "WarmDone", "AwaitWarm", "InjectBadEntry", "BatchDrain"}
 
 // Op: K kind; Q queue index; A argument (sub number, batch number, tune value,
 // time units, bind kind); Subs: submission numbers of an Add/AddAll.
@@ -263,7 +264,7 @@ func (wd *World) runOp(op Op) {
 			c.Val2 = len(s.Entries) - len(s.Exits) // executing right now (instantaneous: Status is one atomic load)
 			r.end(c)
 		}
-	case opBatchWait, opBatchRead, opBatchPending:
+	case opBatchWait, opBatchRead, opBatchPending, opBatchDrain:
 		if op.A < 0 || op.A >= len(wd.batches) {
 			return
 		}
@@ -274,6 +275,18 @@ func (wd *World) runOp(op Op) {
 		b := wd.batches[op.A]
 		b.acquire()
 		switch op.K {
+		case opBatchDrain:
+			if b.ge == nil && b.gr == nil {
+				return
+			}
+			c := r.begin(opBatchDrain, -1, -1)
+			c.Batch = op.A
+			if b.ge != nil {
+				b.ge.Drain()
+			} else {
+				b.gr.Drain()
+			}
+			r.end(c)
 		case opBatchWait:
 			c := r.begin(opBatchWait, -1, -1)
 			c.Batch = op.A
